@@ -322,7 +322,9 @@ func c09Enum() func(c *sim.Case) {
 		combo := sim.Pick(c, "combo", 6) // history x store
 		hi, st := combo%3, combo/3
 		login, nav, lo := op{K: "login", Target: "/a"}, op{K: "nav", Target: "/a"}, op{K: "logout"}
-		ops := [][]op{{login, lo, nav}, {login, lo, lo, nav, nav}, {login, nav, lo, nav, lo, nav}}[hi]
+		// (after an answered logout the browser has dropped its cookie: the old id comes back from someone who kept it)
+		stale := op{K: "attack", Att: "stale-id"}
+		ops := [][]op{{login, lo, stale, nav}, {login, lo, lo, stale, nav, stale}, {login, nav, lo, stale, lo, stale, nav}}[hi]
 		ho := histOpts{o: sim.WorldOpts{Store: []string{"memory", "redis"}[st], AccessToken: true, Logout: true}, idTTL: 600 * time.Second, expIn: 300}
 		P, ok := cache[combo]
 		if !ok {
